@@ -505,6 +505,20 @@ pub fn catalogue(f: &Frame, rng: &mut Rng) -> Vec<Mal> {
                         push(&mut out, "bad_utf8", format!("{label}#{i} and a forbidden character"), &g);
                     }
                 }
+                if label == "topic" || label == "will.topic" || label == "filter" {
+                    // a LONG rejected text made of multi-byte characters at every byte alignment (whatever is done with
+                    // the rejected text - copied, clipped, logged - is done at an offset inside a character)
+                    for ch in ["é", "€", "😀"] {
+                        for pad in 0..ch.len() {
+                            let bad = if label == "filter" { "/#/x" } else { "/+" };
+                            let t = format!("{}{}{}", "a".repeat(pad), ch.repeat(1300 / ch.len()), bad);
+                            let mut g = f.clone();
+                            g.body[i] = Seg::Field { label: label.clone(), text: true, content: t.into_bytes() };
+                            push(&mut out, if label == "filter" { "bad_filter" } else { "wild_name" },
+                                 format!("{label}#{i} long multi-byte text"), &g);
+                        }
+                    }
+                }
                 if label == "topic" || label == "will.topic" {
                     for w in [&b"a/+"[..], b"#", b"a\0b", b"+"] {
                         let mut g = f.clone();
